@@ -168,8 +168,20 @@ func (x *engRun) immCount() int { return int(x.stat("storage_immutable_memtable_
 
 // wait until a background flush scheduled by the last operation has completed
 func (x *engRun) quiesce(before int) {
-	if x.immCount() <= before {
-		return
+	if n := x.immCount(); n <= before {
+		// no new immutable table - but tables recovered at the last open may be waiting, and this write may have signalled the
+		// background flush for them: give it a moment (on an overloaded machine the next operation overtook that flush: thorough
+		// C01 seed 77, C08 seed 88). When nothing was signalled the tables stay (model and implementation agree on that).
+		if n == 0 {
+			return
+		}
+		deadline := time.Now().Add(patience(40 * time.Millisecond))
+		for x.immCount() == n && time.Now().Before(deadline) {
+			time.Sleep(200 * time.Microsecond)
+		}
+		if x.immCount() == n {
+			return
+		}
 	}
 	deadline := time.Now().Add(patience(20 * time.Second))
 	for x.immCount() != 0 && time.Now().Before(deadline) {
